@@ -3,9 +3,10 @@
 (* One kafka.Conn shared by several operations (conn.go: do, doRequest,    *)
 (* waitResponse, readResponse; batch.go: close).  Requests are numbered    *)
 (* under the write lock; the read side is handed over between waiters by   *)
-(* peeking at the next frame's correlation id.  The broker answers in      *)
-(* request order; the network delivers the response stream frame header    *)
-(* first, then the rest, and may cut it anywhere.                          *)
+(* peeking at the next frame's correlation id.  The broker answers the     *)
+(* requests it has received in any order (C06: "every order and delay in   *)
+(* which the broker answers"); the network delivers the response stream    *)
+(* frame header first, then the rest, and may cut it anywhere.             *)
 (*                                                                         *)
 (* ConsumeAll is the design intent "an operation that gets a Kafka error   *)
 (* consumes its whole frame"; setting it to FALSE models the defect class  *)
@@ -21,9 +22,17 @@ CONSTANTS Ops,          \* set of operation ids (naturals)
 \*   MaxWrongIds: answers the broker may send with a correlation id that is not the request's (a framing error);
 \*   CloseOnNoProgress: waitResponse closes the connection when it reports io.ErrNoProgress (finding F20: it did not,
 \*   the foreign frame stayed in the buffer and was later taken by the operation whose id it happened to carry).
+\*   EnterAtWait / SoleWaiterTakes: a defective client (vacuity guard of C06_OwnResponse under out-of-order answers): the
+\*   in-flight count is raised when a caller starts waiting for its response instead of before it writes its request, and
+\*   a sole (counted) waiter takes whatever response is at the head of the stream.  Each alone is harmless; together two
+\*   calls end up with each other's answers without any fault, as soon as the broker answers the later request first.
 MaxWrongIds == 1
 CloseOnNoProgress == TRUE
 NoCloseOnNoProgress == FALSE
+AnswerInOrder == FALSE      \* TRUE: the broker answers in request order only (smaller state space for the checks that are not about C06)
+EnterAtWait == FALSE
+SoleWaiterTakes == FALSE
+Yes == TRUE
 
 VARIABLES
   op,         \* o -> [pc, id, result, frame]
@@ -32,8 +41,8 @@ VARIABLES
   rlock,      \* 0 (free) or the operation holding Conn.rlock
   closed,     \* the client closed the connection
   reqs,       \* operations in the order their requests reached the wire
-  stream,     \* response frames written by the broker: [op |-> o, kerr |-> BOOLEAN, forged |-> BOOLEAN]; op = the operation
-              \* whose correlation id the frame carries; forged: that is not the request it answers
+  stream,     \* response frames written by the broker: [op |-> o, kerr |-> BOOLEAN, forged |-> BOOLEAN, req |-> o]; op = the
+              \* operation whose correlation id the frame carries; req = the operation whose request it answers; forged: op # req
   deliv,      \* per frame: "none" | "hdr" | "full"
   peerClosed, \* the broker end is gone: nothing more will be delivered
   rpos,       \* frames consumed (completely or not) by the client
@@ -58,24 +67,37 @@ DoRequest(o) ==
        THEN /\ op' = [Finish(o, "ioError", 0) EXCEPT ![o].id = corr + 1]
             /\ closed' = TRUE
             /\ UNCHANGED <<inflight, reqs>>
-       ELSE /\ op' = [op EXCEPT ![o].pc = "wait", ![o].id = corr + 1]
+       ELSE /\ op' = [op EXCEPT ![o].pc = IF EnterAtWait THEN "sent" ELSE "wait", ![o].id = corr + 1]
             /\ reqs' = Append(reqs, o)
-            /\ inflight' = inflight + 1
+            /\ inflight' = IF EnterAtWait THEN inflight ELSE inflight + 1
             /\ UNCHANGED closed
   /\ UNCHANGED <<rlock, stream, deliv, peerClosed, rpos, mis, faults>>
 
-\* the broker answers the next request, in order, with success or a Kafka error code
-BrokerReply(kerr) ==
-  /\ ~peerClosed /\ Len(stream) < Len(reqs)
-  /\ stream' = Append(stream, [op |-> reqs[Len(stream) + 1], kerr |-> kerr, forged |-> FALSE])
+\* (defective client only) the caller is counted when it starts waiting
+EnterWait(o) ==
+  /\ op[o].pc = "sent"
+  /\ op' = [op EXCEPT ![o].pc = "wait"]
+  /\ inflight' = inflight + 1
+  /\ UNCHANGED <<corr, rlock, closed, reqs, stream, deliv, peerClosed, rpos, mis, faults>>
+
+\* requests the broker has received / has answered
+Received == {reqs[k] : k \in DOMAIN reqs}
+Answered == {stream[k].req : k \in DOMAIN stream}
+FirstUnanswered == reqs[CHOOSE k \in DOMAIN reqs : reqs[k] \notin Answered /\ \A j \in 1 .. k - 1 : reqs[j] \in Answered]
+
+\* the broker answers a request it has received, not necessarily the oldest one, with success or a Kafka error code
+BrokerReply(o, kerr) ==
+  /\ ~peerClosed /\ o \in Received \ Answered
+  /\ AnswerInOrder => o = FirstUnanswered
+  /\ stream' = Append(stream, [op |-> o, kerr |-> kerr, forged |-> FALSE, req |-> o])
   /\ deliv' = Append(deliv, "none")
   /\ UNCHANGED <<op, corr, inflight, rlock, closed, reqs, peerClosed, rpos, mis, faults>>
 
 \* the broker answers the next request with a frame that carries another operation's correlation id
 BrokerReplyWrongId(o2) ==
-  /\ ~peerClosed /\ Len(stream) < Len(reqs) /\ faults.wrongids < MaxWrongIds
-  /\ o2 # reqs[Len(stream) + 1]
-  /\ stream' = Append(stream, [op |-> o2, kerr |-> FALSE, forged |-> TRUE])
+  /\ ~peerClosed /\ Received \ Answered # {} /\ faults.wrongids < MaxWrongIds
+  /\ o2 # FirstUnanswered
+  /\ stream' = Append(stream, [op |-> o2, kerr |-> FALSE, forged |-> TRUE, req |-> FirstUnanswered])
   /\ deliv' = Append(deliv, "none")
   /\ faults' = [faults EXCEPT !.wrongids = @ + 1]
   /\ UNCHANGED <<op, corr, inflight, rlock, closed, reqs, peerClosed, rpos, mis>>
@@ -106,7 +128,7 @@ PeekOK(o) ==
   /\ op[o].pc = "wait" /\ rlock = 0
   /\ \/ mis            \* bytes from the middle of a frame are taken for a header
      \/ HdrAvail
-  /\ LET mine == ~mis /\ stream[Next1].op = o IN
+  /\ LET mine == ~mis /\ (stream[Next1].op = o \/ (SoleWaiterTakes /\ inflight = 1)) IN
        IF mine
          THEN /\ op' = [op EXCEPT ![o].pc = "own"]                 \* take: keeps rlock
               /\ inflight' = inflight - 1
@@ -115,7 +137,7 @@ PeekOK(o) ==
            THEN /\ op' = Finish(o, "noProgress", 0)               \* io.ErrNoProgress
                 /\ inflight' = inflight - 1 /\ UNCHANGED rlock
            ELSE UNCHANGED <<op, rlock, inflight>>                 \* yield and retry
-  /\ closed' = IF ~(~mis /\ stream[Next1].op = o) /\ inflight = 1 /\ CloseOnNoProgress THEN TRUE ELSE closed
+  /\ closed' = IF ~(~mis /\ (stream[Next1].op = o \/ SoleWaiterTakes)) /\ inflight = 1 /\ CloseOnNoProgress THEN TRUE ELSE closed
   /\ UNCHANGED <<corr, reqs, stream, deliv, peerClosed, rpos, mis, faults>>
 
 \* peek failed: EOF / reset after the peer went away, use of a closed connection, or the deadline
@@ -154,7 +176,8 @@ ReadErr(o, why) ==
 Next ==
   \/ \E o \in Ops : DoRequest(o) \/ PeekOK(o) \/ ReadBody(o)
                      \/ \E w \in {"eof", "closed", "timeout"} : PeekErr(o, w) \/ ReadErr(o, w)
-  \/ \E k \in BOOLEAN : BrokerReply(k)
+  \/ \E o \in Ops : EnterWait(o)
+  \/ \E o \in Ops, k \in BOOLEAN : BrokerReply(o, k)
   \/ \E o2 \in Ops : BrokerReplyWrongId(o2)
   \/ \E f \in DOMAIN deliv : Deliver(f)
   \/ Cut
